@@ -52,13 +52,19 @@ def run(pid, mod, chk, max_mutants=None):
             t0 = time.time()
             r = subprocess.run(["git", "-C", wt, "apply", "--whitespace=nowarn", m["patch"]], stdout=subprocess.PIPE, stderr=subprocess.STDOUT, text=True)
             if r.returncode != 0:
-                chk.ob("self-test-mutant-applies", m["name"], False, "mutant no longer applies to the current tree: %s" % r.stdout[-200:], key="selftest-stale|%s" % m["name"])
+                # the tree under analysis differs from the one the mutant was written for (a later repair, or a change that is being evaluated):
+                # that says nothing about the property - the mutant is skipped and named in the evidence, it is not a finding
+                chk.count("selftest_mutants_skipped_stale")
+                chk.notes.append("self-test mutant skipped, it no longer applies to the current tree: %s" % m["name"])
+                chk.sample({"mutant": m["name"], "skipped": "does not apply to the current tree"})
                 continue
             try:
                 try:
                     db = facts.load("ws")
                 except SystemExit:
-                    chk.ob("self-test-mutant-builds", m["name"], False, "mutant does not compile any more", key="selftest-build|%s" % m["name"])
+                    chk.count("selftest_mutants_skipped_build")
+                    chk.notes.append("self-test mutant skipped, it does not compile on the current tree: %s" % m["name"])
+                    chk.sample({"mutant": m["name"], "skipped": "does not compile on the current tree"})
                     continue
                 c2 = report.Check(pid, "selftest")
                 try:
